@@ -12,7 +12,7 @@ fn mk<const N: usize>() -> (HashTable<T>, St<N>) {
     let mut t: HashTable<T> = HashTable::with_capacity(capreq(N));
     let st = fill::<T, _, N>(
         hv::raw_of_table(&mut t),
-        Spec { items: SYM, deleted: SYM, kind: InvKind::Safe, h: &ZH, distinct: false, id_is_slot: true, layout: None },
+        Spec { items: SYM, deleted: SYM, kind: InvKind::Safe, h: &ZH, distinct: false, id_is_slot: true, layout: None, concrete_tags: None },
     );
     (t, st)
 }
@@ -247,7 +247,7 @@ fn mk_map<const N: usize>() -> (M, St<N>) {
     let mut m: M = HashMap::with_capacity_and_hasher(capreq(N), TabHasher { h: ZH });
     let st = fill::<(Key, u8), _, N>(
         hv::raw_of_map(&mut m),
-        Spec { items: SYM, deleted: SYM, kind: InvKind::Safe, h: &ZH, distinct: false, id_is_slot: true, layout: None },
+        Spec { items: SYM, deleted: SYM, kind: InvKind::Safe, h: &ZH, distinct: false, id_is_slot: true, layout: None, concrete_tags: None },
     );
     (m, st)
 }
@@ -349,7 +349,7 @@ pub fn set_iters<const N: usize>(which: u8) {
     let mut s: S = HashSet::with_capacity_and_hasher(capreq(N), TabHasher { h: ZH });
     let st = fill::<(Key, ()), _, N>(
         hv::raw_of_set(&mut s),
-        Spec { items: SYM, deleted: SYM, kind: InvKind::Safe, h: &ZH, distinct: false, id_is_slot: true, layout: None },
+        Spec { items: SYM, deleted: SYM, kind: InvKind::Safe, h: &ZH, distinct: false, id_is_slot: true, layout: None, concrete_tags: None },
     );
     let items = st.items;
     let mut seen = [false; N];
